@@ -9,7 +9,7 @@ import shutil
 import vlib
 from vlib import sh, BUILD, COQ
 
-HARNESS_TOOLS = ["purefh", "ledgerh", "gossiph", "rpch"]
+HARNESS_TOOLS = ["purefh", "ledgerh", "gossiph", "rpch", "notaryh"]
 
 
 def _tool(name, **kw):
@@ -373,6 +373,55 @@ def replay_C15(ctx, path):
     return 0
 
 
+# ------------------------------------------------------------------ C16: notary call sequences
+def run_C16(ctx, tier):
+    tool = _tool("notaryh")
+    with vlib.BuildLock():
+        rc, o, e = sh(["make", "-j16", "Run/CheckNotary.vo"], cwd=COQ, timeout=1500)
+    mism = []
+    if rc != 0:
+        mism.append("model does not compile: " + (o + e)[-800:])
+    summ, cases = os.path.join(ctx.work, "notary_%s.json" % tier), os.path.join(ctx.work, "ncases_%s.v" % tier)
+    rc, out, err = sh([tool, "-tier", tier, "-seed", str(ctx.seed), "-summary", summ, "-out", cases], timeout=3000)
+    if rc != 0:
+        raise RuntimeError("notaryh failed rc=%s %s %s" % (rc, out[-1500:], err[-1500:]))
+    s = json.load(open(summ))
+    if not mism:
+        q = []
+        for x in ("Base", "Gen", "Model", "Run"):
+            q += ["-Q", os.path.join(COQ, x), "Verif"]
+        rc, o, e = sh(["coqc"] + q + [cases], cwd=ctx.work, timeout=2400)
+        m = re.search(r"bad\s*=\s*(\[.*?\])\s*:\s*list", o + e, re.S)
+        if rc != 0 or not m:
+            mism.append("coq evaluation failed: " + (o + e)[-800:])
+        elif m.group(1).strip() != "[]":
+            mism.append("model and implementation disagree on (sequence, call): " + " ".join(m.group(1).split())[:800])
+    viol = [{"key": v["key"], "what": v["what"][:500]} for v in (s.get("violations") or [])]
+    return {"evaluations": s["evaluations"], "distinct_nontrivial": s["distinct_nontrivial"],
+            "rule": "seeded sequences of 14-27 calls on the REAL notary server object over a real awaiting cache, challenge store (1 s longevity), flash memory and ledger: proposals of contracts and "
+                    "pure transfers (honest / corrupted issuer signature), confirmations (valid receiver signature / signed by another wallet / stripped), rejections (receiver / issuer / outsider / "
+                    "corrupted signature), challenges, waiting-list reads (own key / wrong key / foreign challenge / after expiry), balance reads (own / foreign key, foreign address), replays; "
+                    "non-trivial = distinct sequences with at least one confirm or reject",
+            "samples": s.get("samples", [])[:2], "mismatches": mism, "violations": viol,
+            "extra": {"branches_reached": s.get("kinds", {}),
+                      "comparison": "response class, returned waiting list, per-address awaiting listings and the sealed set after EVERY call vs Notary.nstep (CheckNotary.nmismatches, coqc vm_compute)"},
+            "assumptions": ["H-sig: a signature that verifies under an address's key was made by its owner",
+                            "whether the ledger accepts a leaf is an oracle input of the notary model (decided by the ledger model, C01/C03)",
+                            "an address with nothing awaiting: 'empty list' and the cache's 'not found' error are identified"]}
+
+
+def replay_C16(ctx, path):
+    r = json.load(open(path))
+    print(json.dumps(r, indent=1)[:3000])
+    res = run_C16(ctx, "quick")
+    want = (r.get("violation") or {}).get("key")
+    if (want and want in {v["key"] for v in res["violations"]}) or (not want and res["mismatches"]):
+        print("VIOLATION property=C16 replay=%s" % path)
+        return 1
+    print("replay: not reproduced on the current tree")
+    return 0
+
+
 PROPS = {
     "C05": {"run": run_C05, "replay": replay_C05},
     "C01": make_ledger_check("C01", ["c01.", "res.", "op."]),
@@ -387,6 +436,7 @@ PROPS = {
     "C11": make_gossip_check("C11"),
     "C12": make_gossip_check("C12"),
     "C15": {"run": run_C15, "replay": replay_C15},
+    "C16": {"run": run_C16, "replay": replay_C16},
     "C20": make_pure_check("C20", "wallet",
         "real SaveWallet/ReadWallet (+PEM) over seeded wallets x {16,32}-byte keys: the round trip, EVERY truncation length 0..len-1, EVERY byte position x k xor-values, "
         "one extra byte, wrong keys of sizes {same, other valid, 0,1,15,17,24,31,33,64} and one flipped key bit; non-trivial = every non-round-trip case (each is a distinct file/key)",
